@@ -125,6 +125,10 @@ pub struct RootM {
     /// proposes nothing (listed by help, not completed)
     #[serde(default)]
     pub svc: u8,
+    /// the member sits in a command group of its own that is itself a member of the root group (`Root::Nest(Nest::M0(..))`);
+    /// members with the same value are neighbours and share that inner group
+    #[serde(default)]
+    pub nest: Option<String>,
 }
 
 impl RootM {
@@ -364,8 +368,8 @@ impl Gen<'_> {
         let id = format!("SG{}", self.uid);
         let hide = self.r.below(4);
         let members = vec![
-            RootM { enum_id: first, hidden: hide == 0, ident: "Ma".into(), svc: 0 },
-            RootM { enum_id: second, hidden: hide == 1, ident: "Mb".into(), svc: 0 },
+            RootM { enum_id: first, hidden: hide == 0, ident: "Ma".into(), svc: 0, nest: None },
+            RootM { enum_id: second, hidden: hide == 1, ident: "Mb".into(), svc: 0, nest: None },
         ];
         self.subgroups.insert(id.clone(), SubGroupM { id: id.clone(), members, lt: false });
         id
@@ -671,6 +675,7 @@ pub fn generate_opts(id: usize, r: &mut R, help_names: bool) -> Decl {
             hidden: grouped && g.r.chance(25),
             ident: format!("M{}", i),
             svc: 0,
+            nest: None,
         });
     }
     if grouped {
@@ -691,6 +696,7 @@ pub fn generate_opts(id: usize, r: &mut R, help_names: bool) -> Decl {
                 hidden: false,
                 ident: "Raw".into(),
                 svc: 0,
+                nest: None,
             });
         }
     }
@@ -778,6 +784,17 @@ pub fn generate_opts(id: usize, r: &mut R, help_names: bool) -> Decl {
             let svc = 1 + g.r.below(2) as u8;
             roots[k].svc = svc;
             enums.get_mut(&roots[k].enum_id).unwrap().svc = svc;
+        }
+    }
+    // a group inside the group: two or three neighbouring members are wrapped in a command group of their own
+    if grouped && g.r.chance(25) {
+        let cand: Vec<usize> = (0..roots.len()).filter(|i| roots[*i].enum_id != "RAW").collect();
+        if cand.len() >= 2 {
+            let start = g.r.below(cand.len() - 1);
+            let len = 2 + g.r.below((cand.len() - start - 1).min(2));
+            for k in start..start + len {
+                roots[cand[k]].nest = Some("Nest".to_string());
+            }
         }
     }
     let ids: Vec<String> = enums.keys().cloned().collect();
@@ -1031,7 +1048,31 @@ pub fn emit_module(d: &Decl) -> String {
     }
     if d.grouped {
         body.push_str(&format!("#[derive(Debug, CommandGroup)]\npub enum Root{} {{\n", lt(d.root_lt)));
+        let mut nest_done = false;
         for r in &d.roots {
+            if let Some(n) = &r.nest {
+                if nest_done {
+                    continue;
+                }
+                nest_done = true;
+                let inner: Vec<&RootM> = d.roots.iter().filter(|x| x.nest.as_ref() == Some(n)).collect();
+                let all_hidden = inner.iter().all(|x| x.hidden);
+                let l = lt(inner.iter().any(|x| d.enums[&x.enum_id].lt));
+                // when every member of the inner group is hidden, the inner group is hidden as a whole (one attribute outside)
+                if all_hidden {
+                    body.push_str("    #[group(hidden)]\n");
+                }
+                body.push_str(&format!("    {}({}G{}),\n", n, n, l));
+                mods.push_str(&format!("#[derive(Debug, CommandGroup)]\npub enum {}G{} {{\n", n, l));
+                for x in inner {
+                    if x.hidden && !all_hidden {
+                        mods.push_str("    #[group(hidden)]\n");
+                    }
+                    mods.push_str(&format!("    {}({}{}),\n", x.ident, x.enum_id, lt(d.enums[&x.enum_id].lt)));
+                }
+                mods.push_str("}\n\n");
+                continue;
+            }
             if r.hidden {
                 // the bare word and the explicit `= true` are the same thing
                 body.push_str(if (d.id + *r.ident.as_bytes().last().unwrap() as usize) % 2 == 0 { "    #[group(hidden)]\n" } else { "    #[group(hidden = true)]\n" });
@@ -1364,7 +1405,12 @@ pub fn ref_parse(d: &Decl, name: &str, tokens: &[String]) -> Expect {
                 }
                 continue;
             }
-            Expect::Ok(s) => return Expect::Ok(format!("{}({})", r.ident, s)),
+            Expect::Ok(s) => {
+                return Expect::Ok(match &r.nest {
+                    Some(n) => format!("{}({}({}))", n, r.ident, s),
+                    None => format!("{}({})", r.ident, s),
+                })
+            }
             other => return other,
         }
     }
